@@ -133,9 +133,26 @@ E4Params(ctxs) == { <<"e4", ctx, j1, j2, jc, jf, oc, of>> :
 E4Build(p) == InCtx(p[2], Blk(<<Blk(<<InnerFirst[p[3]], InnerSecond[p[4]]>>, Catches[p[5]], Fins[p[6]])>>,
                               Catches[p[7]], Fins[p[8]]))
 
-ErrQuick == E4Params({1}) \cup E1Params({1}, Idx(Catches), Idx(Fins)) \cup E1Params({2}, SmallCatch, SmallFin)
+\* <<"e5", form, e, a1, a2>>: the SAME block runs twice with a clause value that is a variable (a parameter
+\* in form 1, the loop variable in form 2, a reassigned variable in form 3): the clause value is evaluated
+\* afresh for every error that reaches the block
+E5Vals == << I(1), I(2), S("a") >>
+E5Params == { <<"e5", form, e, a1, a2>> : form \in {1, 2, 3}, e \in Idx(E5Vals), a1 \in Idx(E5Vals), a2 \in Idx(E5Vals) }
+E5Build(p) ==
+  LET blk(v) == Blk(<<Log(I(1)), ErrN(E5Vals[p[3]]), Log(I(2))>>, << <<Var(v), Log(I(8))>>, <<I(2), Log(I(7))>> >>, <<Log(I(6))>>)
+      guard(st) == Blk(<<st>>, << <<All, Log(I(9))>> >>, << >>) IN
+  CASE p[2] = 1 -> Prog(<<Def("f", Fn(<<Param("a")>>, blk("a"))),
+                          guard(Log(Call(Var("f"), <<Arg(E5Vals[p[4]])>>))),
+                          guard(Log(Call(Var("f"), <<Arg(E5Vals[p[5]])>>))), Log(I(5))>>)
+    [] p[2] = 2 -> Prog(<<For(<<"x">>, "values", ListN(<<E5Vals[p[4]], E5Vals[p[5]]>>), guard(blk("x"))), Log(I(5))>>)
+    [] p[2] = 3 -> Prog(<<Def("k", E5Vals[p[4]]), Def("n", I(0)),
+                          While(Bin("<", Var("n"), I(2)),
+                                Do(<<guard(blk("k")), Asg("k", E5Vals[p[5]]), Asg("n", Bin("+", Var("n"), I(1)))>>)),
+                          Log(I(5))>>)
+
+ErrQuick == E5Params \cup E4Params({1}) \cup E1Params({1}, Idx(Catches), Idx(Fins)) \cup E1Params({2}, SmallCatch, SmallFin)
             \cup E3Params \cup { p \in E2Params({1}) : p[8] \in {1, 2} /\ p[10] = 1 }
-ErrThorough == E4Params({1, 2, 3}) \cup E1Params({1, 2, 3}, Idx(Catches), Idx(Fins)) \cup E3Params \cup E2Params({1, 2, 3})
+ErrThorough == E5Params \cup E4Params({1, 2, 3}) \cup E1Params({1, 2, 3}, Idx(Catches), Idx(Fins)) \cup E3Params \cup E2Params({1, 2, 3})
 
 (* ---- C04: loops, exits, ladders, comprehensions ---- *)
 L123 == ListN(<<I(1), I(2), I(3)>>)
@@ -263,6 +280,7 @@ L4Build(p) ==
                             Log(I(6))>>)
 \* <<"l5", k>>: iteration order of sets and maps of strings, default `what`, index lookups in loops
 SA == S("a")  SB == S("b")  SC == S("c")
+MN == MapN(<< <<I(10), I(1)>>, <<I(2), I(2)>>, <<I(-1), I(3)>>, <<I(1), I(4)>>, <<I(-2), I(5)>> >>)
 L5Progs == << Prog(<<For(<<"x">>, "values", SetN(<<SB, SC, SA>>), Log(Var("x")))>>),
               Prog(<<Def("t", MapN(<< <<SB, I(2)>>, <<SC, I(1)>>, <<SA, I(3)>> >>)),
                      For(<<"k">>, "keys", Var("t"), Log(ListN(<<Var("k"), Index(Var("t"), Var("k"))>>))),
@@ -279,7 +297,20 @@ L5Progs == << Prog(<<For(<<"x">>, "values", SetN(<<SB, SC, SA>>), Log(Var("x")))
                      For(<<"x">>, "values", L123, Asg("t", Bin("+", Var("t"), ListN(<<Fn(<< >>, Var("x"))>>)))),
                      Blk(<<Log(Call(Index(Var("t"), I(0)), << >>))>>, << <<All, Log(I(9))>> >>, << >>)>>),
               Prog(<<For(<<"x">>, "values", L123,
-                         IfN(<<Bin("==", Var("x"), I(1)), Bin("==", Var("x"), I(2))>>, <<Log(I(11)), Log(I(12))>>, <<Log(I(13))>>))>>) >>
+                         IfN(<<Bin("==", Var("x"), I(1)), Bin("==", Var("x"), I(2))>>, <<Log(I(11)), Log(I(12))>>, <<Log(I(13))>>))>>),
+              \* keys whose numeric order differs from the order of their texts: 1 2 10, -2 -1
+              Prog(<<Def("t", MN),
+                     For(<<"k">>, "keys", Var("t"), Log(Var("k"))),
+                     For(<<"v">>, "values", Var("t"), Log(Var("v"))),
+                     For(<<"x">>, "entries", Var("t"), Log(Var("x"))),
+                     For(<<"k", "v">>, "entries", Var("t"), Log(ListN(<<Var("v"), Var("k")>>))),
+                     For(<<"k">>, "keys", Var("t"), Do(<<If1(Bin(">", Var("k"), I(1)), Brk), Log(Var("k"))>>)),
+                     Log(Compr("list", Var("x"), "x", "keys", Var("t"), None)),
+                     Log(Compr("list", Var("x"), "x", "values", Var("t"), None)),
+                     Log(Compr("map", N("kv", "", Null, <<Var("x"), Bin("*", Var("x"), I(2))>>), "x", "keys", Var("t"), None))>>),
+              Prog(<<For(<<"x">>, "values", SetN(<<I(10), I(9), I(100), I(-5), I(-10), I(2)>>), Log(Var("x"))),
+                     Log(Compr("list", Var("x"), "x", "values", SetN(<<I(10), I(9), I(100), I(-5), I(-10), I(2)>>), None)),
+                     Log(SetN(<<I(10), I(9), I(100), I(-5), I(-10), I(2)>>))>>) >>
 L5Params == { <<"l5", k>> : k \in Idx(L5Progs) }
 
 LoopParams == C2Params \cup L4Params \cup L5Params \cup L1Params \cup L0Params \cup L2Params \cup L3Params \cup W1Params \cup IfParams \cup CpParams \cup McParams
@@ -415,7 +446,7 @@ S6Params == { <<"s6", k>> : k \in Idx(S6Progs) }
 ScopeParams == S6Params \cup S1Params \cup S2Params \cup S3Params \cup S4Params \cup S5Params \cup A1Params \cup A2Params \cup A3Params
 
 Build(p) ==
-  CASE p[1] = "e4" -> E4Build(p) [] p[1] = "e1" -> E1Build(p) [] p[1] = "e2" -> E2Build(p) [] p[1] = "e3" -> E3Build(p)
+  CASE p[1] = "e5" -> E5Build(p) [] p[1] = "e4" -> E4Build(p) [] p[1] = "e1" -> E1Build(p) [] p[1] = "e2" -> E2Build(p) [] p[1] = "e3" -> E3Build(p)
     [] p[1] = "l1" -> L1Build(p) [] p[1] = "l0" -> L0Build(p) [] p[1] = "l2" -> L2Build(p)
     [] p[1] = "l3" -> L3Progs[p[2]] [] p[1] = "w1" -> W1Build(p) [] p[1] = "if" -> IfBuild(p)
     [] p[1] = "c2" -> C2Build(p) [] p[1] = "l4" -> L4Build(p) [] p[1] = "l5" -> L5Progs[p[2]]
